@@ -211,7 +211,7 @@ def _cover_graph(graph, to_cover, fragments):
             # TODO: one of the matching atoms must be an anchor. Should be
             # handled by PTMGraphMatcher already, assuming every PTM graph has
             # at least one non-ptm atom specified
-            if matching <= available:
+            if matching <= available and matching & to_cover:
                 # Continue with the remaining ptm atoms, and try just this
                 # option and all smaller.
                 try:
